@@ -246,3 +246,26 @@ M("c14_synced_palette_resynced_only_when_nothing_pending", "C14", "ak/color.py",
   "        if any_modifications and self is _GLOBAL_COLORS_CONF:",
   "        if any_modifications and not cant_resolve and self is _GLOBAL_COLORS_CONF:")
 # (marking the current item in cant_resolve, or a single resolution pass, are equivalent mutants)
+
+# ---------------------------------------------------------------- C11
+M("c11_comma_lost_at_wrap", "C11", "ak/ppobj.py",
+  "                        if need_new_line and not is_first_in_line:\n                            yield cp.text(\",\")",
+  "                        if need_new_line and not is_first_in_line:\n                            yield cp.text(\"\")")
+M("c11_last_element_dropped_when_alone_on_line", "C11", "ak/ppobj.py",
+  "                        if is_first_in_line:\n                            yield prefix\n                            len_yielded = offset + 2",
+  "                        if is_first_in_line:\n                            if i == len(items_chunks) - 1 and i > 0:\n                                yield None\n                                break\n                            yield prefix\n                            len_yielded = offset + 2")
+M("c11_sort_key_dropped_for_oneline_dict", "C11", "ak/ppobj.py",
+  "                for key in sorted_keys:\n                    if not is_first:\n                        chunks.append(cp.text(\", \"))",
+  "                for key in obj_to_print:\n                    if not is_first:\n                        chunks.append(cp.text(\", \"))")
+B("c11_nested_offset_not_increased(layout only)", "C11", "ak/ppobj.py",
+  "                yield from self._gen_ch_chunks_for_obj(\n                    cp, obj_to_print[key], offset+2)",
+  "                yield from self._gen_ch_chunks_for_obj(\n                    cp, obj_to_print[key], offset)")
+M("c11_duplicate_element_after_wrap", "C11", "ak/ppobj.py",
+  "                            yield cp.text(\",\")\n                            yield None\n                            len_yielded = 0\n                            is_first_in_line = True",
+  "                            yield cp.text(\",\")\n                            yield None\n                            len_yielded = 0\n                            is_first_in_line = True\n                            if i % 64 == 63:\n                                yield prefix\n                                yield item_chunk\n                                yield cp.text(\",\")\n                                yield None")
+M("c11_empty_container_in_oneline_dict", "C11", "ak/ppobj.py",
+  "        elif isinstance(value, dict):\n            assert not value\n            return cp.text(\"{}\")",
+  "        elif isinstance(value, dict):\n            assert not value\n            return cp.text(\"[]\")")
+M("c11_float_keyword_check", "C11", "ak/ppobj.py",
+  "        elif isinstance(value, Number):\n            return cp.number(str(value))",
+  "        elif isinstance(value, Number):\n            return cp.number(str(int(value)) if value == int(value) and abs(value) < 10 else str(value))")
